@@ -1911,3 +1911,29 @@ def _slice_contains(ex, c):
 def _dur_from_millis(ex, c):
     ms = c.args[0].t
     return duration(z3.UDiv(ms, z3.BitVecVal(1000, 64)), z3.Extract(31, 0, z3.URem(ms, z3.BitVecVal(1000, 64)) * 1000000))
+
+
+@summary("HashSet::is_empty")
+def _hs_is_empty(ex, c):
+    hs = deref(ex, c.args[0])
+    if isinstance(hs, KSet):
+        return Bool(len(hs.keys) == 0)
+    if getattr(hs, "lazy", None) is not None or getattr(hs, "diff", None) is not None or getattr(hs, "pred", None) is not None:
+        raise Unsupported("is_empty of a non-explicit set")
+    return Bool(len(hs.items) == 0)
+
+
+@summary("HashMap::is_empty")
+def _hm_is_empty(ex, c):
+    m = deref(ex, c.args[0])
+    if isinstance(m, KMap):
+        return Bool(len(m.d) == 0)
+    raise Unsupported("is_empty of a non-concrete-key map")
+
+
+@summary("HashMap::len")
+def _hm_len(ex, c):
+    m = deref(ex, c.args[0])
+    if isinstance(m, KMap):
+        return bv_const(len(m.d), "usize")
+    raise Unsupported("len of a non-concrete-key map")
